@@ -76,7 +76,8 @@ def _align_index_sweep(self, tier, seed):
         pts = list(e.values())
         # indices between target points and indices that coincide with one; tolerances below and above the spacing
         e["x"] = rng.choice(pts) if rng.random() < 0.6 else round(rng.uniform(-11, 11), 3)
-        e["tol"] = rng.choice([0.0, 0.05, round(rng.uniform(0, 1.5), 3), 5.0])
+        # (off the 0.001 grid of the points, see _aligned_axes_sweep; the boundary |t - x| = tolerance is decided symbolically)
+        e["tol"] = rng.choice([0.0, 0.0555, round(rng.uniform(0, 1.5), 3) + 0.0005, 5.0005])
         return e
 
     return native_sweep(self, cases, envs=env, tries=8, seed=seed)
@@ -102,12 +103,20 @@ class AlignedGlobalAxes(Contract):
         for sz in sizes:
             for m in METHODS:
                 yield {"sizes": sz, "method": m}
+        # the first dataset's axis is taken as it comes (a descending wavenumber axis): the points of the next dataset
+        # are still assigned to the nearest of *all* its points
+        for sz in [(2, 1), (2, 2), (3, 1)] if tier == "quick" else [(2, 1), (2, 2), (3, 1), (3, 2), (2, 1, 1)]:
+            for m in METHODS:
+                yield {"sizes": sz, "method": m, "first": "descending"}
 
     def build(self, S, case):
         axes = {}
         for d, n in enumerate(case["sizes"]):
             a = S.real_array(f"g{d}", n)
-            strictly_increasing(S, a)
+            if d == 0 and case.get("first") == "descending":
+                strictly_increasing(S, a[::-1])
+            else:
+                strictly_increasing(S, a)
             axes[f"ds{d}"] = a
         tol = S.real("tol")
         S.require(L.ge(tol, 0), "tolerance >= 0")
@@ -168,8 +177,9 @@ class AlignedGlobalAxes(Contract):
                 x, T, tl, me, r = log[pos]
                 pos += 1
                 calls_ok.append(L.and_(L.eq(x, ax[i]), L.eq(tl, tol), me == method))
-                # the target axis handed to align_index: strictly increasing and exactly the images so far
-                targets_ok.append(L.and_(*[L.lt(T[j], T[j + 1]) for j in range(len(T) - 1)]))
+                # the target axis handed to align_index: exactly the images so far, strictly increasing once something was merged
+                if lab != labels[1] or case.get("first") != "descending":
+                    targets_ok.append(L.and_(*[L.lt(T[j], T[j + 1]) for j in range(len(T) - 1)]))
                 targets_ok.append(L.and_(*[L.or_(*[L.eq(t, a) for a in acc_images]) for t in T]))
                 targets_ok.append(L.and_(*[L.or_(*[L.eq(t, a) for t in T]) for a in acc_images]))
                 yield f"image[{lab},{i}]", is_image(r, x, T, tol, method)
@@ -214,6 +224,7 @@ def _aligned_axes_sweep(self, tier, seed):
     from contracts.common import native_sweep, sorted_env
 
     cases = [{"sizes": sz, "method": m} for sz in ((9, 8, 7), (6, 5, 7, 4), (12, 12)) for m in METHODS]
+    cases += [{"sizes": sz, "method": m, "first": "descending"} for sz in ((9, 8, 7), (12, 12)) for m in METHODS]
 
     def env(case, rng):
         e = {}
@@ -225,8 +236,12 @@ def _aligned_axes_sweep(self, tier, seed):
             pts = sorted(pts[:n])
             if len(pts) < n:
                 pts = sorted(set(pts) | {20.0 + k for k in range(n - len(pts))})
+            if d == 0 and case.get("first") == "descending":
+                pts = pts[::-1]
             e.update({f"g{d}_{i}": round(v, 3) for i, v in enumerate(pts)})
-        e["tol"] = rng.choice([0.0, 0.05, 0.3])
+        # (tolerances off the 0.001 grid of the points: a distance exactly equal to the tolerance is decided by float rounding,
+        # which the native evaluation of the postcondition cannot reproduce; the boundary itself is decided symbolically)
+        e["tol"] = rng.choice([0.0, 0.0555, 0.3333]) if case.get("first") != "descending" else rng.choice([0.0555, 0.3333, 2.5555])
         return e
 
     return native_sweep(self, cases, envs=env, tries=3, seed=seed)
